@@ -637,6 +637,11 @@ def child_handler(state, cmd):
             objs[op["k"]][0].release()
         elif kind == "release_model":
             objs[op["m"]].release()
+        elif kind == "forget":
+            # the caller drops its last reference: destructors run now
+            import gc
+            objs.pop(op["x"], None)
+            gc.collect()
         elif kind == "direct":
             data = _make_data(op["data"])
             before = _snap(data)
@@ -774,6 +779,7 @@ def run_history(cfg, keep_events=False):
         probes[name] = probes.get(name, 0) + 1
 
     objs = {}
+    forgotten = set()
     session = None
     last_on = {}          # object id -> last request evaluated on it
     evaluated = 0
@@ -809,6 +815,23 @@ def run_history(cfg, keep_events=False):
                                   "config": list(objs[op["s"]]["config"])}
                 if objs[op["s"]]["config"]:
                     probe("clone_after_setParam")
+            elif kind == "forget":
+                if op["x"] not in objs:
+                    continue
+                if op["x"] in forgotten:
+                    continue
+                session_forget = objs[op["x"]]         # (its description stays: kernels made from a
+                forgotten.add(op["x"])                 #  forgotten model still need it for their requests)
+                fired["forget"] = fired.get("forget", 0) + 1
+                status, payload = session.call(("op", op))
+                if status == "died":
+                    violations.append({"inv": "H1", "op": i, "kind": kind,
+                                       "detail": "the process died (wait status %r) when the caller dropped %s"
+                                                 % (payload, session_forget.get("type"))})
+                    session = None
+                    break
+                events.append([i, kind, op["x"]])
+                continue
             elif kind in ("sv_set", "sv_disp", "sv_array"):
                 if op["s"] not in objs:
                     continue
@@ -819,8 +842,8 @@ def run_history(cfg, keep_events=False):
                 if kind == "sv_array":
                     probe("array_distribution_set")
             ref = op.get("k") or op.get("d") or op.get("s") or op.get("m")
-            if ref is not None and ref not in objs:
-                continue              # its creator was dropped by minimisation
+            if ref is not None and (ref not in objs or ref in forgotten):
+                continue              # its creator was dropped by minimisation, or the caller forgot it
             if kind == "call" and objs[op["k"]]["m"] not in objs:
                 continue
             if kind in ("release_kernel", "release_model", "wipe_cache", "reset_env", "sv_reload"):
@@ -997,6 +1020,16 @@ def gen_history(w, n_ops):
                 k = w.choice(live)
                 ops.append({"op": "release_kernel", "k": k["id"]})
                 dead.add(k["id"])
+        elif r < 0.635:
+            # the caller forgets a kernel or a model (a forgotten model's kernels stay alive)
+            cands = [x for x in kernels if x["id"] not in dead] + models
+            if cands:
+                x = w.choice(cands)
+                ops.append({"op": "forget", "x": x["id"]})
+                if x in kernels:
+                    dead.add(x["id"])
+                else:
+                    models.remove(x)
         elif r < 0.66:
             if models:
                 m = w.choice(models)
